@@ -87,6 +87,23 @@ def targets():
         mk('DCM_xyz', T3, lambda A, v: A.DCM(x=v.t0, y=v.t1, z=v.t2), 'DCM(x=t0, y=t1, z=t2)'),
         mk('DCM_rpy', T3, lambda A, v: A.DCM(rpy=ang(v, 3)), 'DCM(rpy=[t0,t1,t2])'),
     ]
+    # object state: [result, np.asarray(q) after the call, q.A after the call] of a NON-normalised quaternion object
+    def st(call):
+        def f(A, v):
+            q = A.Quaternion(v.vec(*Q), versor=False)
+            r = call(q, v)
+            return [r, np.asarray(q), q.A]
+        return f
+    ts += [
+        mk('state_exp', Q, st(lambda q, v: q.exponential), '[q.exponential, asarray(q), q.A], versor=False'),
+        mk('state_exp_syn', Q, st(lambda q, v: q.exp), '[q.exp, asarray(q), q.A], versor=False'),
+        mk('state_log', Q, st(lambda q, v: q.logarithm), '[q.logarithm, asarray(q), q.A], versor=False'),
+        mk('state_axang', Q, st(lambda q, v: q.to_axang()), '[q.to_axang(), asarray(q), q.A], versor=False'),
+        mk('state_angles', Q, st(lambda q, v: q.to_angles()), '[q.to_angles(), asarray(q), q.A], versor=False'),
+        mk('state_pow', Q + ['a'], st(lambda q, v: q ** v.a), '[q ** a, asarray(q), q.A], versor=False'),
+        mk('pow_int_m1', Q, lambda A, v: A.Quaternion(v.vec(*Q)) ** -1, 'Quaternion(q) ** -1 with the exponent a Python int'),
+        mk('pow_int_2', Q, lambda A, v: A.Quaternion(v.vec(*Q)) ** 2, 'Quaternion(q) ** 2 with the exponent a Python int'),
+    ]
     for ax in 'xyz':
         ts.append(mk(f'rotation_{ax}', ['t0'], (lambda A, v, ax=ax: D(A).rotation(ax, v.t0)), f"rotation('{ax}', t0)"))
     for s in _seqs():
@@ -94,8 +111,9 @@ def targets():
     return ts
 
 
-STAGES = [['C10_defs.v'],
-          ['C10_euler.v', 'C10_axang.v', 'C10_explog.v', 'C10_seq.v', 'C10_ctor.v', 'C10_mlog.v'],
+STAGES = [['C10_defs.v', 'C10_expdefs.v'],
+          ['C10_explog.v', 'C10_state.v', 'C10_seq.v', 'C10_pow.v', 'C10_ctor_rpy.v', 'C10_ctor_euler_zyx.v', 'C10_ctor_xyz.v', 'C10_axang.v',
+           'C10_euler.v', 'C10_mlog.v'],
           [('C10_refuted.v', {'finding': 'DCM(rpy)/angle-order-differs-from-Quaternion(rpy)'})],
           ['C10.v']]
 
@@ -123,6 +141,9 @@ def _impl():
         'explog': lambda q: ahrs.Quaternion(ahrs.Quaternion(arr(q)).logarithm, versor=False).exponential,
         'explog_syn': lambda q: ahrs.Quaternion(ahrs.Quaternion(arr(q)).log, versor=False).exp,
         'pow': lambda q, a: ahrs.Quaternion(arr(q)) ** float(a),
+        'state': lambda q, m, a=None: (lambda o: [(o ** float(a)) if m == 'pow' else (lambda r: r() if callable(r) else r)(getattr(o, m)),
+                                                  np.asarray(o), o.A])(ahrs.Quaternion(arr(q), versor=False)),
+        'pow_int': lambda q, k: ahrs.Quaternion(arr(q)) ** int(k),
         'DCM_log_axang': lambda ax, th: ahrs.DCM(axang=(arr(ax), float(th))).log,
         'DCM_euler': lambda s, t: np.asarray(ahrs.DCM(euler=(s, fl(t)))),
         'DCM_xyz': lambda t: np.asarray(ahrs.DCM(x=float(t[0]), y=float(t[1]), z=float(t[2]))),
@@ -216,6 +237,12 @@ def correspondence(ctx):
     exps = [0.0, 1.0, -1.0, 2.0, 0.5, -3.0, 3.0]
     pc = [{**qc[i], 'a': exps[i] if i < len(exps) else float(ctx.rng.uniform(-3, 3))} for i in range(len(qc))]
     ctx.correspond('C10_pow', pc, lambda c: I['pow']([c[k] for k in Q], c['a']), tol_ulp=4096, abs_tol=1e-13)
+    for tname, meth in (('state_exp', 'exponential'), ('state_exp_syn', 'exp'), ('state_log', 'logarithm'), ('state_axang', 'to_axang'),
+                        ('state_angles', 'to_angles')):
+        ctx.correspond(f'C10_{tname}', qc, (lambda c, meth=meth: I['state']([c[k] for k in Q], meth)), tol_ulp=4096, abs_tol=1e-13)
+    ctx.correspond('C10_state_pow', pc, lambda c: I['state']([c[k] for k in Q], 'pow', c['a']), tol_ulp=4096, abs_tol=1e-13)
+    ctx.correspond('C10_pow_int_m1', qc, lambda c: I['pow_int']([c[k] for k in Q], -1), tol_ulp=4096, abs_tol=1e-13)
+    ctx.correspond('C10_pow_int_2', qc, lambda c: I['pow_int']([c[k] for k in Q], 2), tol_ulp=4096, abs_tol=1e-13)
     m = ctx.n(25, 120)
     t3 = [cm.d(T3, _seq_angles(ctx.rng, 3, i)) for i in range(m)]
     ctx.correspond('C10_DCM_euler_zyx', t3, lambda c: I['DCM_euler']('zyx', [c[k] for k in T3]), tol_ulp=256)
@@ -337,30 +364,125 @@ def o_explog(inp):
     return None
 
 
+_ETYPES = {'float': float, 'int': int, 'npint': np.int64, 'npfloat': np.float64}
+
+
+def _exp(v, t):
+    """the exponent v given as a Python float / Python int / np.int64 / np.float64 (integer types only for whole numbers)"""
+    return _ETYPES[t](v)
+
+
 def o_pow(inp):
-    """q**1 = q, q**0 = 1, q**a q**b = q**(a+b), q**a = (cos(a t), u sin(a t)) with q = (cos t, u sin t)"""
+    """q**1 = q, q**0 = 1, q**a q**b = q**(a+b), q**a = (cos(a t), u sin(a t)) with q = (cos t, u sin t); the exponent may be a
+    Python float, a Python int or a NumPy integer / float (same value, same result)"""
+    import ahrs
     q = np.array(inp['q'], float)
     q = q / np.linalg.norm(q)
     a, b = float(inp['a']), float(inp['b'])
-    P = _impl()['pow']
+    ta, tb = inp.get('atype', 'float'), inp.get('btype', 'float')
+    P = lambda qq, e: np.asarray(ahrs.Quaternion(np.array(qq, dtype=float)) ** e, float)
     nv = np.linalg.norm(q[1:])
     t = math.atan2(nv, q[0])
     tol = (1e-11 if t > 1e-3 and math.pi - t > 1e-3 else 3e-8) * max(1.0, abs(a), abs(b), abs(a + b))
-    region = 'generic' if t > 1e-3 and math.pi - t > 1e-3 else 'near-real'
+    region = ('generic' if t > 1e-3 and math.pi - t > 1e-3 else 'near-real') + ('-negative-w' if q[0] < 0 else '')
+    kind = lambda *ts: 'float-exponent' if all(x in ('float', 'npfloat') for x in ts) else 'integer-type-exponent'
     one = np.array([1.0, 0, 0, 0])
-    p0, p1 = np.asarray(P(q.copy(), 0.0), float), np.asarray(P(q.copy(), 1.0), float)
-    if p0.shape != (4,) or cm.bad(p0) or cm.maxabs(p0, one) > 1e-12:
-        return {'tag': 'pow/q**0-not-identity', 'observed': p0, 'expected': one}
-    if p1.shape != (4,) or cm.bad(p1) or cm.maxabs(p1, q) > tol:
-        return {'tag': f'pow/q**1-not-q-{region}', 'observed': p1, 'expected': q}
-    pa, pb, pab = (np.asarray(P(q.copy(), e), float) for e in (a, b, a + b))
     u = q[1:] / nv
-    spec = np.array([math.cos(a * t), *(u * math.sin(a * t))])
-    if cm.bad(pa) or cm.maxabs(pa, spec) > tol:
-        return {'tag': f'pow/not-same-axis-a-times-angle-{region}', 'observed': pa, 'expected': spec}
+    for tt in ('float', 'int', 'npint'):
+        p0, p1, m1 = P(q, _exp(0, tt)), P(q, _exp(1, tt)), P(q, _exp(-1, tt))
+        if p0.shape != (4,) or cm.bad(p0) or cm.maxabs(p0, one) > 1e-12:
+            return {'tag': f'pow/q**0-not-identity-{kind(tt)}', 'observed': p0, 'expected': one}
+        if p1.shape != (4,) or cm.bad(p1) or cm.maxabs(p1, q) > tol:
+            return {'tag': f'pow/q**1-not-q-{kind(tt)}-{region}', 'observed': p1, 'expected': q}
+        if m1.shape != (4,) or cm.bad(m1) or cm.maxabs(m1, cm.qconj(q)) > tol:
+            return {'tag': f'pow/q**-1-not-conjugate-{kind(tt)}-{region}', 'observed': m1, 'expected': cm.qconj(q)}
+    ea, eb = _exp(a, ta), _exp(b, tb)
+    whole = float(a + b) == int(a + b)
+    tab = 'float' if not whole else (ta if ta == tb else 'int' if 'int' in (ta, tb) else ta)
+    pa, pb, pab = P(q, ea), P(q, eb), P(q, _exp(a + b, tab))
+    for e, pe, te in ((a, pa, ta), (b, pb, tb), (a + b, pab, tab)):
+        spec = np.array([math.cos(e * t), *(u * math.sin(e * t))])
+        if pe.shape != (4,) or cm.bad(pe) or cm.maxabs(pe, spec) > tol:
+            return {'tag': f'pow/not-same-axis-a-times-angle-{kind(te)}-{region}', 'observed': pe, 'expected': spec}
     prod = cm.qmul(pa, pb)
-    if cm.bad(pab) or cm.maxabs(prod, pab) > 2 * tol:
-        return {'tag': f'pow/exponents-do-not-add-{region}', 'observed': prod, 'expected': pab}
+    if cm.maxabs(prod, pab) > 2 * tol:
+        return {'tag': f'pow/exponents-do-not-add-{kind(ta, tb, tab)}-{region}', 'observed': prod, 'expected': pab}
+    return None
+
+
+def o_qax(inp):
+    """every unit non-real quaternion (either cover: w > 0 or w < 0) -> to_axang / quat2axang -> axang2quat gives it back, and
+    (axis, angle) is the rotation of q: Rodrigues(axis, angle) = R(q), angle = 2 atan2(|v|, w) in (0, 2 pi)"""
+    import ahrs
+    from ahrs.common import orientation as O
+    q = np.array(inp['q'], float)
+    q = q / np.linalg.norm(q)
+    e = inp.get('entry', 'Q')
+    cover = 'negative-w' if q[0] < 0 else 'nonnegative-w'
+    if e == 'Q':
+        axis, ang = ahrs.Quaternion(q.copy()).to_axang()
+    else:
+        axis, ang = O.quat2axang(q.copy())
+    axis, ang = np.asarray(axis, float), float(ang)
+    nv = np.linalg.norm(q[1:])
+    want = 2 * math.atan2(nv, q[0])
+    tol = 1e-11
+    if cm.bad(axis) or cm.bad(ang) or abs(ang - want) > tol:
+        return {'tag': f'to_axang_{e}/angle-{cover}', 'observed': ang, 'expected': want}
+    if cm.maxabs(axis, q[1:] / nv) > 1e-9:
+        return {'tag': f'to_axang_{e}/axis-{cover}', 'observed': axis, 'expected': q[1:] / nv}
+    if cm.maxabs(_rodrigues(axis, ang), cm.Rspec(q)) > 1e-9:
+        return {'tag': f'to_axang_{e}/not-the-rotation-of-q-{cover}', 'observed': _rodrigues(axis, ang), 'expected': cm.Rspec(q)}
+    q2 = np.asarray(O.axang2quat(axis.copy(), ang), float)
+    if cm.bad(q2) or cm.maxabs(q2, q) > 1e-11:
+        return {'tag': f'qax_{e}/roundtrip-{cover}', 'observed': q2, 'expected': q}
+    return None
+
+
+def o_logexp(inp):
+    """log(exp(p)) = p for a pure quaternion p = (0, v) with 0 < |v| < pi held in ONE object (compared with the object itself after
+    the calls), through both spellings"""
+    import ahrs
+    v = np.array(inp['v'], float)
+    p = ahrs.Quaternion(np.array([0.0, *v]), versor=False)
+    for ex, lg in (('exponential', 'logarithm'), ('exp', 'log')):
+        e1 = np.asarray(getattr(p, ex), float)
+        back = np.asarray(getattr(ahrs.Quaternion(e1, versor=False), lg), float)
+        now = np.asarray(p, float)
+        tol = 1e-11 if np.linalg.norm(v) > 1e-3 and math.pi - np.linalg.norm(v) > 1e-3 else 3e-8
+        if cm.bad(back) or cm.maxabs(back, now) > tol:
+            return {'tag': f'{lg}-of-{ex}/not-the-object-it-was-taken-of', 'observed': back, 'expected': now}
+        if cm.maxabs(now, np.array([0.0, *v])) > 0:
+            return {'tag': f'{ex}/changes-its-object', 'observed': now, 'expected': [0.0, *v]}
+    return None
+
+
+_STATE_METHODS = ['exponential', 'exp', 'logarithm', 'log', 'to_axang', 'to_angles', 'pow', 'conjugate', 'inverse', 'to_DCM']
+
+
+def o_state(inp):
+    """reading a property / calling a method of a Quaternion twice gives identical results and leaves the object's numbers
+    (np.asarray(q) and q.A) untouched"""
+    import ahrs
+    from vlib.core import flat_floats
+    q0 = np.array(inp['q'], float)
+    m = inp['method']
+    q = ahrs.Quaternion(q0.copy(), versor=bool(inp.get('versor', True)))
+    before, beforeA = np.array(np.asarray(q), float).copy(), np.array(q.A, float).copy()
+
+    def call():
+        if m == 'pow':
+            return q ** float(inp.get('a', 0.7))
+        r = getattr(q, m)
+        return r() if callable(r) else r
+    r1 = np.array(flat_floats(call()))
+    mid, midA = np.array(np.asarray(q), float).copy(), np.array(q.A, float).copy()
+    r2 = np.array(flat_floats(call()))
+    kind = 'versor' if inp.get('versor', True) else 'non-versor'
+    if not (np.array_equal(mid, before) and np.array_equal(midA, beforeA)):
+        return {'tag': f'{m}/changes-its-object-{kind}', 'observed': mid, 'expected': before}
+    if r1.shape != r2.shape or not np.array_equal(r1, r2, equal_nan=True):
+        return {'tag': f'{m}/second-call-differs-{kind}', 'observed': r2, 'expected': r1}
     return None
 
 
@@ -422,7 +544,7 @@ def o_convention(inp):
 
 
 ORACLES = {'rpy': o_rpy, 'axq': o_axq, 'axR': o_axR, 'explog': o_explog, 'pow': o_pow, 'seq': o_seq, 'mlog': o_mlog,
-           'convention': o_convention}
+           'convention': o_convention, 'qax': o_qax, 'logexp': o_logexp, 'state': o_state}
 
 
 def _call(f, inp, who):
@@ -450,16 +572,52 @@ def search(ctx, scale):
         inp = {'axis': ax, 'angle': th}
         ctx.check('axR', inp, _call(o_axR, inp, 'DCM(axang)'), nontrivial_key=key)
         ctx.check('mlog', inp, _call(o_mlog, inp, 'DCM.log'), nontrivial_key=key)
-    exps = [0.0, 1.0, -1.0, 2.0, 0.5, -3.0, 3.0, 1e-3]
-    for i, (region, q) in enumerate(cm.quats(rng, n)):
-        if np.linalg.norm(q[1:]) == 0:
+    exps = [0.0, 1.0, -1.0, 2.0, 0.5, -3.0, 3.0, 1e-3, -2.0, -0.5]
+    ints = [-3, -2, -1, 0, 1, 2, 3]
+    types = ['float', 'int', 'npint', 'npfloat']
+    k = 0
+    for i, (region, q0) in enumerate(cm.quats(rng, n)):
+        if np.linalg.norm(q0[1:]) == 0:
             continue
-        inp = {'q': q.tolist()}
-        ctx.check('explog', inp, _call(o_explog, inp, 'explog'), nontrivial_key=tuple(np.round(q, 9)))
-        a = exps[i % len(exps)] if i % 2 else float(rng.uniform(-3, 3))
-        b = float(rng.uniform(-3 - min(a, 0), 3 - max(a, 0)))
-        inp = {'q': q.tolist(), 'a': a, 'b': b}
-        ctx.check('pow', inp, _call(o_pow, inp, 'pow'), nontrivial_key=(tuple(np.round(q, 9)), round(a, 9)))
+        for q in (q0, -q0):                       # both covers of the same rotation
+            k += 1
+            key = tuple(np.round(q, 9))
+            inp = {'q': q.tolist()}
+            ctx.check('explog', inp, _call(o_explog, inp, 'explog'), nontrivial_key=key)
+            for e in ('Q', 'O'):
+                inp = {'q': q.tolist(), 'entry': e}
+                ctx.check('qax', inp, _call(o_qax, inp, f'to_axang_{e}'), nontrivial_key=(e,) + key)
+            # exponents: every whole number of [-3, 3] in every type, non-integers as floats, mixed pairs
+            if k % 2:
+                a, ta = float(ints[k % 7]), types[(k // 2) % 4]
+            else:
+                a, ta = (exps[k % len(exps)], 'float') if k % 4 else (float(rng.uniform(-3, 3)), 'float')
+            if k % 3 == 0:
+                b, tb = float(ints[(k // 3) % 7]), types[(k // 3) % 3]
+                b = float(max(-3 - min(a, 0), min(3 - max(a, 0), b))) if float(a) != int(a) else b
+                if float(b) != int(b):
+                    tb = 'float'
+            else:
+                b, tb = float(rng.uniform(-3 - min(a, 0), 3 - max(a, 0))), 'float'
+            if abs(a + b) > 3:
+                b, tb = -a, ta if float(a) == int(a) else 'float'
+            inp = {'q': q.tolist(), 'a': a, 'b': b, 'atype': ta, 'btype': tb}
+            ctx.check('pow', inp, _call(o_pow, inp, 'pow'), nontrivial_key=(key, round(a, 9), ta, tb))
+            m = _STATE_METHODS[k % len(_STATE_METHODS)]
+            for versor in (True, False):
+                s_ = 1.0 if versor else float(10 ** rng.uniform(-1, 0.4))
+                inp = {'q': (q * s_).tolist(), 'method': m, 'versor': versor, 'a': float(exps[k % len(exps)])}
+                ctx.check('state', inp, _call(o_state, inp, m), nontrivial_key=(m, versor) + key)
+    # every method at least once on a versor, a non-versor and a pure rotation vector (non-unit vector part)
+    for m in _STATE_METHODS:
+        for qq, versor in (([0.5, 0.1, -0.3, 0.8], True), ([1.0, 2.0, -3.0, 0.5], False), ([0.0, 0.3, -0.2, 0.5], False),
+                           ([-0.6, 0.0, 0.8, 0.0], True)):
+            inp = {'q': qq, 'method': m, 'versor': versor, 'a': -1.5}
+            ctx.check('state', inp, _call(o_state, inp, m), nontrivial_key=(m, versor, tuple(qq)))
+    for i in range(20 * scale):
+        v = cm.unit(rng.standard_normal(3)) * ([1e-6, 1e-2, 0.5, 1.0, 2.0, 3.0][i % 6] if i < 12 else rng.uniform(1e-3, math.pi - 1e-3))
+        inp = {'v': [float(x) for x in v]}
+        ctx.check('logexp', inp, _call(o_logexp, inp, 'log-of-exp'), nontrivial_key=tuple(np.round(v, 9)))
     per = 3 * scale
     for s in ALL_SEQS:
         k = len(s)
